@@ -53,7 +53,11 @@ RULE = ("structured generator: 2-9 users x 2-10 items (12x12 in the thorough tie
         "(known/unknown/no user; no/empty/known/partly-unknown/all-unknown history; known and unknown candidates); FunkSVD with 1-3 features, "
         "1-4 epochs, optional rating range (also inverted), 4 learning rates; training histories on ONE scorer object (5 in 11 ALS cases, 4 in 11 FunkSVD cases): 1-2 further "
         "train() calls, each followed by 2-3 queries of its own -- on a fresh dataset (other vocabulary and sizes), on the previous data plus ratings / a new user / a new item, on the same data "
-        "with another seed, or train(retrain=False) on other data (must change nothing); 3 in 4 ALS histories have a fold-in query after every training; every residual / score / "
+        "with another seed, or train(retrain=False) on other data (must change nothing); 3 in 4 ALS histories have a fold-in query after every training; "
+        "exact-zero boundary of the history-derived user bias (BiasedMF under every user-embedding policy, FunkSVD; half of the trainings, re-trainings included): the dataset's mean is made "
+        "dyadic, its bias model computed exactly, and 1-2 histories (single or double precision rating column) are solved for whose residuals r - b_g - b_i cancel exactly "
+        "(known items with a dyadic bias and unknown items, the last rating balancing the others; or every rating exactly at its baseline: all-zero embedding), presented mostly "
+        "for a user known from training whose stored bias is not 0, also for an unknown / absent user; every residual / score / "
         "trajectory check of a training and its queries is made against the state that training left; malformed stream: zero regularisation (solver may fail), zero epochs; "
         "non-trivial = training ran, at least one half-step updated >= 2 rows with data (ALS) or >= 2 samples share a user or item (FunkSVD), "
         "and at least one query returned a finite score; distinct = by hash of the case")
@@ -117,6 +121,125 @@ def gen_queries(rng, users, items, lo=3, hi=5):
         qs.append({"user": user, "history": hist, "items": cands})
     return qs
 
+# ---------------------------------------------------------------------------------------------
+# histories aimed at the exact-zero boundary of the history-derived user bias
+#
+# Ratings are dyadic rationals, so the bias model of a generated dataset can be computed exactly here (global mean,
+# damped item means, damped user means -- the formulas of property C08, used only to CHOOSE inputs; nothing is judged
+# with them).  When the global mean and the biases of the items a history touches are dyadic with few bits, every
+# single- and double-precision operation of the scoring path on them is exact, and a history can be solved for whose
+# residuals  r - b_g - b_i  cancel exactly: the user bias derived from it is 0.0 (not merely small), the intermediate
+# value the scoring path may mistake for "no bias given".  Such a history is presented for a user known from training
+# whose stored bias is not 0 (and, less often, for an unknown / absent user), under every user-embedding policy.
+# ---------------------------------------------------------------------------------------------
+
+UNKNOWN_ITEMS = [900, 901, 902]
+
+
+def damp_of(case, who):
+    d = case["damping"]
+    return F(d.get(who, "0/1")) if isinstance(d, dict) else F(d)
+
+
+def is_dyadic(x, bits=12):
+    d = Fraction(x).denominator
+    return d & (d - 1) == 0 and d <= 2**bits
+
+
+def exact_biases(case, data):
+    """(global mean, {item: bias}, {user: bias}) of BiasModel.learn on the dataset, as exact rationals"""
+    _users, _items, ratings = data
+    rs = [(u, i, F(r)) for u, i, r in ratings]
+    g = sum(r for _, _, r in rs) / len(rs)
+    di, du = damp_of(case, "item"), damp_of(case, "user")
+    isum, icnt, usum, ucnt = {}, {}, {}, {}
+    for u, i, r in rs:
+        isum[i] = isum.get(i, 0) + (r - g)
+        icnt[i] = icnt.get(i, 0) + 1
+    bi = {i: isum[i] / (icnt[i] + di) for i in isum}
+    for u, i, r in rs:
+        usum[u] = usum.get(u, 0) + (r - g - bi[i])
+        ucnt[u] = ucnt.get(u, 0) + 1
+    bu = {u: usum[u] / (ucnt[u] + du) for u in usum}
+    return g, bi, bu
+
+
+def make_mean_dyadic(rng, ratings):
+    """Move a few ratings by half stars (in place) until the mean of the dataset is a dyadic rational."""
+    n = len(ratings)
+    odd = n
+    while odd % 2 == 0:
+        odd //= 2
+    vals = [int(F(r[2]) * 2) for r in ratings]
+    need_up = (-sum(vals)) % odd
+    up = sum(10 - v for v in vals) >= need_up
+    todo = need_up if up else sum(vals) % odd
+    while todo:
+        j = rng.below(n)
+        if up and vals[j] < 10:
+            vals[j] += 1
+            todo -= 1
+        elif not up and vals[j] > 1:
+            vals[j] -= 1
+            todo -= 1
+    for r, v in zip(ratings, vals):
+        r[2] = fjson(Fraction(v, 2))
+
+
+def zero_bias_query(rng, case, data):
+    """A query whose history has a user bias of exactly 0 (None when the dataset's biases do not allow one)."""
+    users, items, _ = data
+    g, bi, bu = exact_biases(case, data)
+    if not is_dyadic(g):
+        return None
+    good = [i for i in items if is_dyadic(bi.get(i, 0))]        # known items whose bias is exact in single precision
+    base = lambda i: g + bi.get(i, 0)                           # an unknown item has no item bias
+    pool = good + UNKNOWN_ITEMS
+    biased = [u for u in users if bu.get(u, 0) != 0]
+    uk = rng.weighted([("known-biased", 6 if biased else 0), ("known", 1), ("unknown", 1), ("none", 1)])
+    if case["kind"] == "funksvd" and uk in ("unknown", "none") and rng.chance(2, 3):
+        uk = "known-biased" if biased else "known"             # FunkSVD scores known users only
+    user = rng.choice(biased) if uk == "known-biased" else rng.choice(users) if uk == "known" else (999 if uk == "unknown" else None)
+    hist = None
+    for _ in range(8):
+        mode = rng.weighted([("cancelling", 5), ("at-baseline", 2)])
+        n = rng.randint(1, min(4, len(pool)))
+        if good and rng.chance(3, 4):       # at least one item the model knows (a fold-in with a non-empty known part)
+            first = rng.choice(good)
+            ids = [first] + rng.sample([i for i in pool if i != first], n - 1)
+        else:
+            ids = rng.sample(pool, n)
+        if mode == "at-baseline" or n == 1:
+            # every rating exactly at its baseline: all residuals 0, user bias 0, normalised ratings 0, embedding 0
+            h = [[i, base(i)] for i in ids]
+        else:
+            h = [[i, Fraction(rng.randint(1, 10), 2)] for i in ids[:-1]]
+            resid = sum(r - base(i) for i, r in h)
+            h.append([ids[-1], base(ids[-1]) - resid])            # the last entry balances the others
+            h = rng.shuffle(h)
+        if all(Fraction(1, 4) <= r <= Fraction(11, 2) for _, r in h):
+            hist = [[i, fjson(r)] for i, r in h]
+            break
+    if hist is None:
+        return None
+    nc = rng.randint(1, min(6, len(items) + 1))
+    cands = rng.sample(items + [950], nc)
+    return {"user": user, "history": hist, "items": cands, "hist_dtype": rng.choice(["f32", "f64"]), "aim": "zero-history-bias"}
+
+
+def aim_zero_history_bias(rng, case, t, cur=None):
+    """With probability 1/2: (when `t` brings the data its queries are judged against, `cur` is None) make the mean of
+    t's ratings dyadic, then append 1-2 queries with a zero-bias history against that data."""
+    if case["kind"] == "als-implicit" or not rng.chance(1, 2):
+        return
+    if cur is None:
+        make_mean_dyadic(rng, t["ratings"])
+        cur = (t["users"], t["items"], t["ratings"])
+    for _ in range(rng.randint(1, 2)):
+        q = zero_bias_query(rng, case, cur)
+        if q is not None:
+            t["queries"].append(q)
+
 
 def gen_case(rng, tier, malformed=False, wide=False):
     kind = "als-explicit" if wide else rng.weighted([("als-explicit", 4), ("als-implicit", 4), ("funksvd", 3)])
@@ -149,6 +272,7 @@ def gen_case(rng, tier, malformed=False, wide=False):
             case["range"] = ["4/1", "2/1"]      # inverted range
     case["style"] = kind + ("/malformed" if malformed else "") + ("/wide" if wide else "")
     if not wide:
+        aim_zero_history_bias(rng.fork("zero-history-bias"), case, case)
         gen_trainings(rng.fork("trainings"), case)
     return case
 
@@ -207,6 +331,8 @@ def gen_trainings(rng, case):
         t["queries"] = gen_queries(rng, cur[0], cur[1], 2, 3)
         if fold_every_time:
             force_fold_query(rng, t["queries"], cur[1])
+        # zero-bias histories against the state this call leaves (fresh data: made dyadic first; otherwise the data as it is)
+        aim_zero_history_bias(rng.fork(f"zero-history-bias-{len(out)}"), case, t, None if how == "fresh" else cur)
         out.append(t)
     case["trainings"] = out
     case["style"] += "/history"
@@ -556,7 +682,24 @@ def expected_path(case, obs, q):
     return "trained", n
 
 
-def check_scores(v, tag, q, o, want, tol):
+def stored_user_bias(obs, q):
+    b = obs.get("bias") or {}
+    if q["user"] in obs["users"] and b.get("user"):
+        return F(b["user"][obs["users"].index(q["user"])])
+    return None
+
+
+def zero_bias_note(obs, q, ub):
+    """Key suffix and message for a query whose supplied history gives a user bias of exactly 0: the bias that applies is
+    that 0, whatever bias training stored for the same user id."""
+    if q["history"] is None or ub != 0:
+        return "", ""
+    st = stored_user_bias(obs, q)
+    return ":zero-history-bias", (f" [user {q['user']}: the bias derived from the supplied history {[(i, float(F(r))) for i, r in q['history']]} is exactly 0 and is the one "
+                                  f"that applies; bias stored in training: {None if st is None else float(st)}]")
+
+
+def check_scores(v, tag, q, o, want, tol, note=("", "")):
     if o["ids"] != q["items"]:
         v.append((f"{tag}:alignment", f"result ids {o['ids']} differ from the candidates {q['items']}"))
         return
@@ -565,7 +708,7 @@ def check_scores(v, tag, q, o, want, tol):
             v.append((f"{tag}:missing-score", f"item {i}: score {s} but expected {'missing' if w is None else 'a value'}"))
             return
         if s is not None and not close(F(s), w, tol):
-            v.append((f"{tag}:score-formula", f"item {i}: score {float(F(s))} differs from embedding dot product plus biases {float(w)}"))
+            v.append((f"{tag}:score-formula{note[0]}", f"item {i}: score {float(F(s))} differs from embedding dot product plus biases {float(w)}{note[1]}"))
             return
 
 
@@ -711,7 +854,8 @@ def oracle_als(case, obs, noop=False, prev=None):
                 if explicit:
                     s += F(obs["bias"]["global"]) + F(obs["bias"]["item"][inum[i]]) + ub
                 want.append(s)
-        check_scores(v, tag, q, o, want, TOLB if explicit else TOL32)
+        check_scores(v, tag, q, o, want, TOLB if explicit else TOL32,
+                     zero_bias_note(obs, q, ub) if (explicit and path == "fold") else ("", ""))
     return v
 
 
@@ -798,7 +942,7 @@ def funksvd_scoring(case, obs):
                 want.append(None)
             else:
                 want.append(dotf(Qq[inum[i]], Pq[n]) + F(b["global"]) + F(b["item"][inum[i]]) + ub)
-        check_scores(v, "funksvd", q, o, want, TOLB)
+        check_scores(v, "funksvd", q, o, want, TOLB, zero_bias_note(obs, q, ub) if n is not None else ("", ""))
     return v
 
 
@@ -877,6 +1021,22 @@ def phase_counters(case, obs):
         yield "range=" + ("none" if case["range"] is None else "set")
         yield "samples=" + str(min(40, len(obs["ctx"]["users"]) // 10 * 10))
     for q, o in zip(case["queries"], obs["queries"]):
+        if q.get("aim"):
+            yield "query-aimed-at=" + q["aim"]
+        if q.get("hist_dtype"):
+            yield "history-rating-dtype=" + q["hist_dtype"]
+        if case["kind"] != "als-implicit" and q["history"] and not o["error"]:
+            # the bias the definition derives from the supplied history, from the biases read back (exact rationals)
+            applies = case["kind"] == "funksvd" or expected_path(case, obs, q)[0] == "fold"
+            if applies and new_user_bias(case, obs, q["history"]) == 0:
+                st = stored_user_bias(obs, q)
+                yield "history-bias-exactly-zero:" + ("unknown-or-no-user" if st is None else "known-user-stored-bias-zero" if st == 0 else "known-user-stored-bias-nonzero")
+                if o.get("embeds"):
+                    yield "history-bias-exactly-zero:returned-by-new_user_embedding=" + str(o["embeds"][0]["offset"] == "0/1")
+                    if all(F(x) == 0 for x in o["embeds"][0]["u"]):
+                        yield "history-bias-exactly-zero:all-zero-embedding"
+                    elif any(i in obs["items"] for i, _ in q["history"]):
+                        yield "history-bias-exactly-zero:non-zero-embedding"
         if not o["error"]:
             if any(s is None for s in o["scores"]):
                 yield "query-with-missing-score"
